@@ -84,7 +84,7 @@ def method_for_year(schedule, year):
 class Hist:
     """symbolic (or concrete) history: per-slot variables plus the rp2 transaction objects built from them"""
 
-    def __init__(self, S, slots, years, prefix="", tz=False, ordered=True, shared_off=None, shared_sym=None, fixed_t=None, price_k=PRICE_K, price_max=PRICE_MAX, amount_max=AMOUNT_MAX):
+    def __init__(self, S, slots, years, prefix="", tz=False, ordered=True, shared_off=None, shared_sym=None, fixed_t=None, price_min=1, price_k=PRICE_K, price_max=PRICE_MAX, amount_max=AMOUNT_MAX):
         self.S = S
         self.slots = slots
         self.years = tuple(years)
@@ -117,7 +117,7 @@ class Hist:
             self.t.append(t)
             self.off.append(off)
             self.a.append(S.int("a" + nm, 1, amount_max))
-            self.p.append(S.int("p" + nm, 1, price_max))
+            self.p.append(S.int("p" + nm, price_min, price_max))
             if s["fee"] == "pos":
                 self.f.append(S.int("f" + nm, 1, amount_max))
             elif s["fee"] == "any":
@@ -153,19 +153,19 @@ class Hist:
             amt = S.dec(self.a[i], AMOUNT_K)
             if s["table"] == "IN":
                 fiat_fee = S.dec(self.f[i], 2) if s["fee"] != "none" else ZERO
-                tx = InTransaction(cfg, ts, asset, s["ex"], s["ho"], s["type"], price, amt, fiat_fee=fiat_fee, row=self.row(i))
+                tx = InTransaction(cfg, ts, asset, s["ex"], s["ho"], s["type"], price, amt, fiat_fee=fiat_fee, row=self.row(i), unique_id=s.get("uid"))
                 ins.add_entry(tx)
             elif s["table"] == "OUT":
                 fee = S.dec(self.f[i], AMOUNT_K) if s["fee"] != "none" else ZERO
                 if s["type"] == "FEE":
-                    tx = OutTransaction(cfg, ts, asset, s["ex"], s["ho"], s["type"], price, ZERO, fee, row=self.row(i))
+                    tx = OutTransaction(cfg, ts, asset, s["ex"], s["ho"], s["type"], price, ZERO, fee, row=self.row(i), unique_id=s.get("uid"))
                 else:
-                    tx = OutTransaction(cfg, ts, asset, s["ex"], s["ho"], s["type"], price, amt, fee, row=self.row(i))
+                    tx = OutTransaction(cfg, ts, asset, s["ex"], s["ho"], s["type"], price, amt, fee, row=self.row(i), unique_id=s.get("uid"))
                 outs.add_entry(tx)
             else:
                 recv = S.dec(self.a[i], AMOUNT_K)
                 sent = S.dec(self.a[i] + self.f[i], AMOUNT_K)
-                tx = IntraTransaction(cfg, ts, asset, s["ex"], s["ho"], s["ex2"], s["ho2"], price, sent, recv, row=self.row(i))
+                tx = IntraTransaction(cfg, ts, asset, s["ex"], s["ho"], s["ex2"], s["ho2"], price, sent, recv, row=self.row(i), unique_id=s.get("uid"))
                 intras.add_entry(tx)
             self.txs[i] = tx
         return InputData(asset, ins, outs, intras, cfg.from_date, cfg.to_date)
